@@ -24,7 +24,6 @@ from checks.c09_dense import Shadow, bsize
 UNIT_TIMEOUT = 1500.0
 TOL = {'finite': 1e-9, 'segment': 1e-9, 'infinite': 2e-6}
 COEFFS = [(1.0, 1.0), (0.6, -0.8j), (2.0, 0.5), (0.0, 1.0), (1.0, 0.0), (-1.0, 1.5 + 0.5j)]
-FORMS = {'B': 'B', 'A': 'A', 'mix': ['A', 'C', 'B', 'G']}
 FAMILIES = ['spin', 'spin0', 'ferm', 'fermP', 'ferm0', 'fb', 'sf', 'spin1']
 
 
@@ -34,6 +33,11 @@ class Viol(Exception):
     def __init__(self, key, what, cont=None):
         super().__init__(what)
         self.key, self.what, self.cont = key, what, cont
+
+
+def form_spec(form, L):
+    """Argument of convert_form for the form variant of a start state ('mix' = a different form on every site)."""
+    return [('A', 'C', 'B', 'G')[i % 4] for i in range(L)] if form == 'mix' else form
 
 
 def tup(x):
@@ -56,13 +60,21 @@ def fam_sites(fam, tier):
     if fam == 'ferm0':
         return [S.FermionSite(None)] * 3, [], (2, 2)
     if fam == 'fb':
-        f, b = S.FermionSite('N'), S.BosonSite(2, 'N')
-        return ([f, b, f, b], [3], (2, 3, 2)) if big else ([f, b, f], [2], (2, 2))
+        f, b = fb_sites()
+        return ([f, b, f, b], [1, 1], (2, 3, 2)) if big else ([f, b, f], [1, 0], (2, 2))
     if fam == 'sf':
         return [S.SpinHalfFermionSite('N', 'Sz')] * 3, [3, 1], (3, 3)
     if fam == 'spin1':
         return [S.SpinSite(1.0, 'Sz')] * 3, [0], (2, 3)
     raise ValueError(fam)
+
+
+def fb_sites():
+    """Fermion and boson site with two independent Z2 charges (fermion parity, boson parity)."""
+    from tenpy.networks import site as S
+    f, b = S.FermionSite('parity'), S.BosonSite(2, 'parity')
+    S.set_common_charges([f, b], 'independent')
+    return f, b
 
 
 def inf_spec(fam):
@@ -79,10 +91,10 @@ def inf_spec(fam):
     if fam == 'ferm0':
         return [S.FermionSite(None)] * 2, [[[]] * 2, [[]] * 3], [[]] * 2
     if fam == 'fb':
-        return [S.FermionSite('N'), S.BosonSite(2, 'N')], [[[0], [1]], [[0], [1], [2]]], [[0], [1]]
+        return list(fb_sites()), [[[0, 0], [1, 0], [0, 1]], [[0, 0], [1, 0], [1, 1], [0, 1]]], [[0, 0], [0, 0]]
     if fam == 'sf':
         return ([S.SpinHalfFermionSite('N', 'Sz')] * 2,
-                [[[0, 0], [1, 1], [1, -1]], [[0, 0], [1, 1], [1, -1], [2, 0]]], [[0, 0], [1, 1]])
+                [[[0, 0], [0, 0]], [[0, 0], [-1, 1], [1, 1]]], [[1, -1], [1, 1]])
     if fam == 'spin1':
         return [S.SpinSite(1.0, 'Sz')] * 2, [[[0], [2]], [[0], [0], [2]]], [[0], [0]]
     raise ValueError(fam)
@@ -115,7 +127,7 @@ def finite_state(fam, tier, rng, form):
     v = sector_vector(sites, sector, ranks, rng)
     arr = npc.Array.from_ndarray(v, [s.leg for s in sites], labels=['p%d' % i for i in range(len(sites))], cutoff=1e-13)
     psi = MPS.from_full(sites, arr, form=None, normalize=False, unit_cell_width=len(sites))
-    psi.convert_form(FORMS[form][:psi.L] if isinstance(FORMS[form], list) else FORMS[form])
+    psi.convert_form(form_spec(form, psi.L))
     sh = Shadow('finite', v[None, ..., None], sites, [1] * len(sites), 1.0)
     sh.normalize()
     return psi, sh
@@ -140,11 +152,11 @@ def infinite_state(fam, rng, form):
     psi = MPS(sites, Bs, [np.ones(len(b)) for b in bonds], bc='infinite', form=None, unit_cell_width=L)
     psi.canonical_form()
     psi.norm = 0.8
-    psi.convert_form([FORMS[form][i % 4] for i in range(L)] if isinstance(FORMS[form], list) else FORMS[form])
+    psi.convert_form(form_spec(form, L))
     sh = Shadow('infinite', T, sites, [1] * L, 0.8)
     sh.normalize(keep_norm=True)
-    if sh.rho()[1] > 0.97:
-        raise RuntimeError('start state %s is (nearly) non-injective, gap ratio %g' % (fam, sh.rho()[1]))
+    if not D.imps_data(sh.T, 1)[1]:
+        raise RuntimeError('start state %s is (nearly) non-injective' % fam)
     return psi, sh
 
 
@@ -167,7 +179,7 @@ def build(start, seed):
         if bc == 'segment':
             first, last = (1, psi.L - 2) if psi.L >= 4 else (1, psi.L - 1)
             psi, sh, _ = step(psi, sh, ('segment', first, last), ctx)
-            psi.convert_form(FORMS[form][:psi.L] if isinstance(FORMS[form], list) else FORMS[form])
+            psi.convert_form(form_spec(form, psi.L))
     ctx['rng_seed'] = seed
     return psi, sh, ctx
 
@@ -335,11 +347,16 @@ def vl_signs(psi, sh, site):
     sh.T = sh.T * np.asarray(signs).reshape([-1] + [1] * (sh.T.ndim - 1))
 
 
-def finish(sh, renorm, zero_ok=True):
-    """Normalise the shadow after a non-unitary map; returns True if the state was destroyed."""
-    f = np.linalg.norm(sh.T) if sh.bc != 'infinite' else np.sqrt(abs(D.imps_data(sh.T, 1)[0]))
-    if f < 1e-7:
-        return True
+def finish(sh, renorm):
+    """Normalise the shadow after a non-unitary map; returns True if the result is outside the domain:
+    the state was destroyed, or (infinite) the transfer matrix became degenerate (cat state / nilpotent)."""
+    if sh.bc != 'infinite':
+        if np.linalg.norm(sh.T) < 1e-7:
+            return True
+    else:
+        eta, ok, _ = D.imps_data(sh.T, 1)
+        if not ok or eta < 1e-12:
+            return True
     sh.normalize(keep_norm=renorm)
     return False
 
@@ -353,7 +370,7 @@ def trunc_check(what, candidates, psi2, err):
     from tenpy.linalg.truncation import TruncationError
     if not isinstance(err, TruncationError):
         raise Viol(what + ':no-trunc-err', 'returned %r instead of a TruncationError' % (err,))
-    if not (0 <= err.eps < 1 + 1e-12) or not err.ov <= 1 + 1e-12:
+    if not err.eps >= 0 or not err.ov <= 1 + 1e-12:
         raise Viol(what + ':trunc-err-range', 'TruncationError(eps=%r, ov=%r)' % (err.eps, err.ov))
     if err.eps < 1e-20:
         return False
@@ -365,13 +382,20 @@ def trunc_check(what, candidates, psi2, err):
     return True
 
 
+class Leaf(Exception):
+    pass
+
+
 def reanchor(psi2, sh2, what):
-    """After a genuine truncation the exact result is unknown: continue from the state actually produced."""
+    """After a genuine truncation the exact result is unknown: continue from the state actually produced.
+
+    (A truncated infinite MPS is neither normalised nor canonical any more: it is not explored further.)"""
     T = psi_T(psi2, what)
-    sh2.T = T
+    psi2.test_sanity()
     if sh2.bc == 'infinite':
-        sh2.normalize(keep_norm=True)
-    elif abs(np.linalg.norm(T) - 1) > TOL[sh2.bc]:
+        raise Leaf('truncated')
+    sh2.T = T
+    if abs(np.linalg.norm(T) - 1) > TOL[sh2.bc]:
         raise Viol(what + ':tensor-norm', 'tensors of the truncated result are not normalised (%.12g)' % np.linalg.norm(T))
     sh2.norm = psi2.norm
     sh2._cache = None
@@ -417,7 +441,7 @@ def step(psi, sh, act, ctx):
         site = sh.elem[i]
         M, is_unitary, need = op_info(site)[opname]
         call = lambda: psi2.apply_local_op(i, opname, unitary=unitary, renormalize=renorm, understood_infinite=True)  # noqa: E731
-        if need and (bc == 'infinite' or not site.leg.chinfo.qnumber):
+        if need and (bc == 'infinite' or getattr(site, 'charge_to_JW_parity', None) is None):
             return expect_reject(call, 'JW-string-impossible')
         sh2.T = D.apply_full(sh.T, D.embed(sh.elem, {i: M}, jw_upto=i if need else None))
         if need and bc == 'segment':
@@ -455,7 +479,7 @@ def step(psi, sh, act, ctx):
         at_front(sh2, imin, fn)
         odd = njw[0] % 2 == 1
         call = lambda: psi2.apply_local_term([tuple(t) for t in term], autoJW=autoJW, i_offset=off, renormalize=renorm)  # noqa: E731
-        if odd and (bc == 'infinite' or not sh.elem[0].leg.chinfo.qnumber):
+        if odd and (bc == 'infinite' or getattr(psi.get_site(imin), 'charge_to_JW_parity', None) is None):
             return expect_reject(call, 'JW-string-impossible')
         if odd and bc == 'segment':
             vl_signs(psi, sh2, sh.elem[0])
@@ -655,6 +679,8 @@ def step(psi, sh, act, ctx):
             raise Viol(what + ':total-charge', 'get_total_charge() = %r after gauging to %r' % (psi2.get_total_charge(), want))
     elif kind != 'copy':
         raise ValueError(act)
+    if bc == 'infinite' and canonical and any(a < b for a, b in zip(psi2.chi, psi.chi)):
+        check_norm = False   # canonical_form_infinite projected to a smaller chi: its norm bookkeeping is not documented
     sh2._cache = None
     sh2.canon = sh.canon if canonical is None else canonical
     check(psi2, sh2, what, signfree=signfree, canonical=sh2.canon, check_norm=check_norm)
@@ -693,10 +719,10 @@ def alphabet(psi, sh, ctx, full, tier):
         return [('split', None)] if not sh.plain else []
     nb = L - 1 if fin else L        # bonds that can be swapped
     if sh.zeroS:   # exactly zero singular values are stored: only transformations that never divide by S are defined
-        acts = [('swap', 0, 'auto', None), ('group', 2)] + ([('compress', 'svd', None)] if bc != 'segment' else [])
+        acts = [('swap', 0, 'auto', None), ('group', 2)] + ([('compress', 'svd', None)] if bc == 'finite' else [])
         if sh.plain:
             acts += [('op', 0, pick(sh.elem[0], False), None, False), ('op', L - 1, pick(sh.elem[-1], True), None, False)]
-        return acts + ([('roll', 1), ('cell', 2)] if not fin and sh.n * 2 <= 6 else [])
+        return acts + ([('roll', 1), ('cell', 2)] if not fin and sh.window(sh.n * 2) > sh.n * 2 else [])
     if sh.plain:
         infos = [op_info(s) for s in sh.elem]
         nu = [pick(s, True) for s in sh.elem]
@@ -738,7 +764,8 @@ def alphabet(psi, sh, ctx, full, tier):
                 if full and i != j:
                     acts.append(('term', ((cd, i), (ferm[j][-1], j)), True, 0, False))
         if full:
-            acts += [('term', ((nn[0], 0),), True, 0, True), ('term', ((nn[0], 0), (nu[1], 1)), True, 1 if not fin else L - 2, False)]
+            off = 1 if not fin else L - 2
+            acts += [('term', ((nn[0], 0),), True, 0, True), ('term', ((nn[off % L], 0), (nu[(1 + off) % L], 1)), True, off, False)]
             for i in range(L):
                 if ferm[i]:
                     acts += [('term', ((ferm[i][0], i),), True, 0, False), ('term', ((ferm[i][-1], i),), False, 0, False)]
@@ -751,7 +778,8 @@ def alphabet(psi, sh, ctx, full, tier):
         if fin:
             others = ['U']
             if bc == 'finite' and [repr(s) for s in psi.sites] == [repr(s) for s in ctx['phi'].sites] and \
-                    np.all(psi.get_total_charge(True) == ctx['phi'].get_total_charge(True)):
+                    np.all(psi.get_total_charge(True) == ctx['phi'].get_total_charge(True)) and \
+                    psi._B[0].get_leg('vL').qconj == 1:
                 others += ['fix', 'fixA'] + (['fixG'] if psi.chinfo.qnumber else [])
             combos = [(o, c) for o in others for c in range(len(COEFFS))] if full else [(others[-1], 1), ('U', 5)]
             acts += [('add', o, c) for o, c in combos]
@@ -767,7 +795,7 @@ def alphabet(psi, sh, ctx, full, tier):
                 opts = [('add', 0)] + [('nfl', (a, b)) for a in (first - 1, first) for b in (last, last + 1)
                                        if 0 <= a and b < parent.L and (a, b) != (first, last)]
             else:
-                opts = [('add', 0), ('add', 1), ('nfl', (first - 1, last)), ('nfl', (first, last + 2))]
+                opts = [('add', k) for k in (0, 1) if -k * parent.L <= first] + [('nfl', (first - 1, last)), ('nfl', (first, last + 2))]
             acts += [('enl',) + o for o in (opts if full else opts[:2])]
         if fin and psi.chinfo.qnumber and psi.segment_boundaries[0] is None:
             acts += [('gauge', 'zero')] + ([('gauge', 'q')] if full else [])
@@ -786,14 +814,15 @@ def alphabet(psi, sh, ctx, full, tier):
     acts += [('group', n) for n in ((2, 3) if full else (2,)) if n <= L]
     if not sh.plain and all(b != 1 for b in sh.blocks):
         acts += [('split', None), ('split', 2)]
-    acts += [('chi', 0)] + ([('chi', 1), ('chi', 2)] if full else [])
+    if psi._B[0].get_leg('vL').qconj == 1:   # documented for extra legs "with qconj=+1"
+        acts += [('chi', 0)] + ([('chi', 1), ('chi', 2)] if full else [])
     if bc != 'segment':
         acts += [('compress', 'svd', None), ('compress', 'svd', 2)]
         if full:
             acts += [('compress', 'SVD', 2)] + ([('compress', 'variational', None), ('compress', 'variational', 2)] if L > 2 else [])
     acts.append(('inv',))
     if not fin:
-        acts += [('cell', f) for f in ((2, 3) if full else (2,)) if sh.n * f <= 6]
+        acts += [('cell', f) for f in ((2, 3) if full else (2,)) if sh.window(sh.n * f) > sh.n * f]
         acts += [('roll', s) for s in (list(range(1, L)) + [-1, L] if full else [1])]
     forms = ['A', 'B', 'C', 'G', 'Th', (0.25, 0.75), ','.join((['A', 'C', 'B', 'G'] * L)[1:L + 1])] if full else ['A', ','.join((['B', 'A'] * L)[:L])]
     acts += [('form', f) for f in forms]
@@ -853,12 +882,15 @@ def run_step(psi, sh, act, ctx, record, hist):
         warnings.simplefilter('ignore')
         try:
             return step(psi, sh, act, ctx)
+        except Leaf as e:
+            return None, None, str(e)
         except Viol as v:
             record(v.key, '%s after history %r: %s' % (act, hist[:-1], v.what), hist)
             if v.cont is not None:
                 return v.cont + ('violation',)
         except Exception as e:  # noqa: BLE001
-            key = '%s:%s:exception:%s' % (act[0], sh.bc, type(e).__name__)
+            slug = '-'.join(''.join(c if c.isalnum() else ' ' for c in str(e).split('\n')[0]).split()[:6])
+            key = '%s:%s:exception:%s:%s' % (METHOD[act[0]], sh.bc, type(e).__name__, slug)
             record(key, '%r after %r raised %r\n%s' % (act, hist[:-1], e, traceback.format_exc()[-1200:]), hist)
     return None
 
@@ -870,7 +902,8 @@ def units(tier, seed, label):
     for fam in FAMILIES:
         for bc in ('finite', 'segment', 'infinite'):
             for form in ('B', 'A', 'mix'):
-                us.append((fam, bc, form, tier, seed))
+                if tier != 'quick' or (bc, form) != ('infinite', 'A'):   # (time budget of the quick tier)
+                    us.append((fam, bc, form, tier, seed))
     return us
 
 
